@@ -191,6 +191,13 @@ def gen_case(rng, index, tier):
     case['tkind'] = tkind
     case['tdir'] = tdir
     case['tdir_arg'] = link_at if tkind == 'trash-dir-link' else tdir
+    if tkind in ('trash-dir', 'trash-dir-link') and rng.random() < 0.5:
+        # trash-list is given other (empty) trash directories first, one of
+        # them twice: each --trash-dir keeps its own volume
+        other = 'other-td' if (vol == 'v1' or 'v1' not in L.mounts) else 'v1/other-td'
+        L.add(world.ensure_trash_dirs(other))
+        case['list_more'] = rng.choice([[other], [other, other + '/'],
+                                        [other, other]])
     case['vol'] = vol
     case['pclass'] = pclass
     if pclass in ('rel-raw', 'rel-escapes') and rng.random() < 0.35 or rng.random() < 0.02:
@@ -251,7 +258,12 @@ def _run_case(case):
     # ---------------- reading 1: trash-list
     with world.World(case) as w:
         R = w.R
-        r = run.run(w, 'list', topt(case, w), stdin=b'')
+        more = []
+        for o in case.get('list_more') or []:
+            more += ['--trash-dir', w.abs(o)]
+        if more:
+            obs['list_with_several_trash_dirs'] = 1
+        r = run.run(w, 'list', more + topt(case, w), stdin=b'')
         runs['list'] = r.brief()
         if r.timeout:
             out['verdict'] = 'inconclusive'
